@@ -18,7 +18,7 @@ theorem podEvt_pre_sim (s : State) (id : GangId) (anno : Option (Bool × Cfg)) :
         | none => ensureGang s id
         | some (minOK, c) =>
           attachInfo { ensureGang s id with gangs := updGang (ensureGang s id).gangs id (fun g =>
-            if g.init = false ∧ minOK = true then applyCfg g c true else g) } id).gangs := by
+            if g.init = false ∧ minOK = true then applyCfg s.dflt g c true else g) } id).gangs := by
   cases anno with
   | none => exact sim_ensureGang s id
   | some a =>
@@ -27,7 +27,7 @@ theorem podEvt_pre_sim (s : State) (id : GangId) (anno : Option (Bool × Cfg)) :
     apply sim_updGang_meta
     intro g
     split
-    · exact applyCfg_meta g c true
+    · exact applyCfg_meta s.dflt g c true
     · exact ⟨rfl, rfl⟩
 
 theorem podEvt_allG {P : PodSets → Prop} (hP : SetInv P) (s : State) (p : Pod) (id : GangId) (n : Bool)
